@@ -22,7 +22,9 @@ use crate::netoracle as no;
 use crate::netw::NetWorld;
 use serde_json::Value;
 use sos_account::Account;
-use sos_core::Paths;
+use sos_backend::{BackendTarget, Preferences, ServerOrigins};
+use sos_core::{Origin, Paths, RemoteOrigins};
+use sos_preferences::PreferenceManager;
 use sos_database_upgrader::{upgrade_accounts, UpgradeOptions};
 use std::collections::{BTreeMap, BTreeSet};
 use std::path::Path;
@@ -41,6 +43,85 @@ fn blobs(dir: &Path, id: &sos_core::AccountId, server: bool) -> BTreeMap<String,
         }
     }
     out
+}
+
+
+// ---- side tables that the upgrader must carry over: preferences (global and
+// per account) and the account's server list. The harness populates them on
+// the file-system account right before the upgrade (derived from the step, no
+// random draw) and reads them back through the database backend afterwards.
+
+fn fs_target(dir: &Path, id: &sos_core::AccountId) -> BackendTarget {
+    BackendTarget::FileSystem(Paths::new_client(dir).with_account_id(id))
+}
+
+async fn db_target(dir: &Path, id: &sos_core::AccountId) -> anyhow::Result<BackendTarget> {
+    let paths = Paths::new_client(dir).with_account_id(id);
+    let client = sos_database::open_file(paths.database_file()).await?;
+    Ok(BackendTarget::Database(paths, client))
+}
+
+type SideTables = (BTreeMap<String, Value>, BTreeMap<String, Value>, BTreeSet<(String, String)>);
+
+async fn read_side_tables(target: BackendTarget, id: &sos_core::AccountId) -> Result<SideTables, String> {
+    let mut prefs = Preferences::new(target.clone());
+    prefs.load_global_preferences().await.map_err(|e| format!("global preferences: {e}"))?;
+    prefs.new_account(id).await.map_err(|e| format!("account preferences: {e}"))?;
+    let g = prefs.global_preferences();
+    let g = g.lock().await;
+    let globals: BTreeMap<String, Value> =
+        g.iter().map(|(k, v)| (k.clone(), serde_json::to_value(v).unwrap_or(Value::Null))).collect();
+    let a = prefs.account_preferences(id).await.ok_or("no account preferences")?;
+    let a = a.lock().await;
+    let account: BTreeMap<String, Value> =
+        a.iter().map(|(k, v)| (k.clone(), serde_json::to_value(v).unwrap_or(Value::Null))).collect();
+    let servers = ServerOrigins::new(target, id);
+    let list = servers.list_servers().await.map_err(|e| format!("server list: {e}"))?;
+    let servers: BTreeSet<(String, String)> = list.iter().map(|o| (o.name().to_string(), o.url().to_string())).collect();
+    Ok((globals, account, servers))
+}
+
+async fn populate_side_tables(dir: &Path, id: &sos_core::AccountId, di: usize, keep: bool) -> Result<(), String> {
+    let target = fs_target(dir, id);
+    let mut prefs = Preferences::new(target.clone());
+    prefs.load_global_preferences().await.map_err(|e| e.to_string())?;
+    prefs.new_account(id).await.map_err(|e| e.to_string())?;
+    {
+        let g = prefs.global_preferences();
+        let mut g = g.lock().await;
+        g.insert("verif.global.flag".to_owned(), keep.into()).await.map_err(|e| e.to_string())?;
+        g.insert(format!("verif.global.dev{di}"), (di as i64 - 7).into()).await.map_err(|e| e.to_string())?;
+    }
+    {
+        let a = prefs.account_preferences(id).await.ok_or("no account preferences")?;
+        let mut a = a.lock().await;
+        a.insert("verif.bool".to_owned(), (!keep).into()).await.map_err(|e| e.to_string())?;
+        a.insert("verif.int".to_owned(), (-15i64 - di as i64).into()).await.map_err(|e| e.to_string())?;
+        a.insert("verif.double".to_owned(), (2.54f64).into()).await.map_err(|e| e.to_string())?;
+        a.insert("verif.string".to_owned(), format!("message \"{di}\" \u{e9}").into()).await.map_err(|e| e.to_string())?;
+        a.insert("verif.list".to_owned(), vec!["item-1".to_owned(), String::new(), "item,3".to_owned()].into())
+            .await
+            .map_err(|e| e.to_string())?;
+        a.insert("verif.map".to_owned(), serde_json::json!({"foo": "bar", "n": [1, 2, {"x": null}]}).into())
+            .await
+            .map_err(|e| e.to_string())?;
+        if keep {
+            // a key written and removed again must stay removed
+            a.insert("verif.removed".to_owned(), true.into()).await.map_err(|e| e.to_string())?;
+            a.remove("verif.removed").await.map_err(|e| e.to_string())?;
+        }
+    }
+    let mut servers = ServerOrigins::new(target, id);
+    let first = Origin::new(format!("first-{di}"), "https://first.example.com:5053/".parse().map_err(|e| format!("{e}"))?);
+    let second = Origin::new("second".to_owned(), format!("https://second.example.com/base/{di}").parse().map_err(|e| format!("{e}"))?);
+    servers.add_server(first).await.map_err(|e| e.to_string())?;
+    servers.add_server(second.clone()).await.map_err(|e| e.to_string())?;
+    if keep {
+        let third = Origin::new("third".to_owned(), "http://192.168.1.33:8080".parse().map_err(|e| format!("{e}"))?);
+        servers.add_server(third.clone()).await.map_err(|e| e.to_string())?;
+        servers.remove_server(&second).await.map_err(|e| e.to_string())?;
+    }
+    Ok(())
 }
 
 async fn trusted(dev: &Device) -> BTreeSet<String> {
@@ -90,6 +171,21 @@ pub async fn upgrade_device(world: &mut NetWorld, di: usize, s: &Value, rec: &mu
     // sign out: the upgrader works on closed accounts
     world.devices[di].dev.account = None;
     tokio::task::yield_now().await;
+
+    // preferences and server list of the file-system account
+    let side_before = match populate_side_tables(&dir, &id, di, jbool(s, "keep_stale")).await {
+        Ok(()) => match read_side_tables(fs_target(&dir, &id), &id).await {
+            Ok(t) => Some(t),
+            Err(e) => {
+                rec.observe(&format!("c19: side tables of the file-system account unreadable: {e}"));
+                None
+            }
+        },
+        Err(e) => {
+            rec.observe(&format!("c19: side tables not populated: {e}"));
+            None
+        }
+    };
 
     // ---- dry run: must not touch the source
     let tree_before = crate::archw::tree(&dir, Path::new("/nonexistent"));
@@ -192,6 +288,27 @@ pub async fn upgrade_device(world: &mut NetWorld, di: usize, s: &Value, rec: &mu
     for v in post.violations {
         if !pre_sigs.contains(&v.signature.replace("/db/", "/*/")) {
             rec.violate("C19", &v.signature, v.detail);
+        }
+    }
+    if let Some((g0, a0, s0)) = side_before {
+        rec.stats.count("c19.side_tables_compared");
+        let after = match db_target(&dir, &id).await {
+            Ok(t) => read_side_tables(t, &id).await,
+            Err(e) => Err(format!("{e}")),
+        };
+        match after {
+            Ok((g1, a1, s1)) => {
+                if g0 != g1 {
+                    rec.violate("C19", "C19/client/global_preferences_changed", format!("before {g0:?} after {g1:?}"));
+                }
+                if a0 != a1 {
+                    rec.violate("C19", "C19/client/account_preferences_changed", format!("before {a0:?} after {a1:?}"));
+                }
+                if s0 != s1 {
+                    rec.violate("C19", "C19/client/server_list_changed", format!("before {s0:?} after {s1:?}"));
+                }
+            }
+            Err(e) => rec.violate("C19", "C19/client/side_tables_unreadable_after_upgrade", e),
         }
     }
     let trusted_after = trusted(&world.devices[di].dev).await;
